@@ -162,7 +162,7 @@ def _r2(doc, repo, verif):
             if func.startswith('e_'):
                 envlog[lhs2] = (name, data, binary, width)
             continue
-        if func in pre_funcs and re.match(r'^(h_ix|h_obj|h_cmds|h_vars|h_vdata|h_names|h_descr|h_vnames|h_grp|h_desc|h_buf|h_ubuf|g_typed|g_w|g_k|g_j)\b', lhs2):
+        if func in pre_funcs and re.match(r'^(h_ix|h_obj|h_cmds|h_vars|h_vdata|h_names|h_descr|h_vnames|h_grp|h_desc|h_buf|h_ubuf|g_typed|g_api_cmd|g_api_name|g_api_int|g_w|g_k|g_j)\b', lhs2):
             if '.$pad' in lhs2 or lhs2.endswith(('at_lock', 'at_unlock', 'in_cs')):
                 continue
             state[lhs2] = (name, data, binary, width)
@@ -190,7 +190,9 @@ def _r2_run(doc, repo, verif, lines, clause, skipped):
         defs = ['NATIVE_REPLAY', 'NATIVE_FN_' + fn] + [x for x in doc.get('job_defines', []) if not x.startswith(('JOB_', 'API_CALL'))]
         call = [x for x in doc.get('job_defines', []) if x.startswith('API_CALL=')]
         if call:
-            return {'ran': False, 'reproduced': False, 'output': 'state injection is implemented for the two step functions only', 'recipe': 'state injection'}
+            if fn in ('cat_get_processed_command', 'cat_search_command_by_name', 'cat_search_command_group_by_name', 'cat_search_variable_by_name', 'cat_init'):
+                return {'ran': False, 'reproduced': False, 'output': 'state injection is not implemented for pointer-returning / initialising API functions', 'recipe': 'state injection'}
+            defs = [x for x in defs if not x.startswith('NATIVE_FN_')] + ['NATIVE_CALL=' + call[0][len('API_CALL='):]]
         exe = os.path.join(d, 'r2')
         cmd = ['clang', '-g', '-O0', '-fsanitize=address,undefined', '-fno-sanitize-recover=undefined', '-w', '-I' + d, '-I' + os.path.join(repo, 'src'),
                '-I' + os.path.join(verif, 'contracts'), '-I' + os.path.join(verif, 'harness')] + ['-D' + x for x in defs] + ['-DE0=G_ZERO', os.path.join(verif, 'harness', 'l1_native.c'), '-o', exe]
